@@ -66,9 +66,17 @@ def big_scenario(rng):
     return dict(tree=tree, opts={"p": 1, "i": "p.diff", "b": 1}, umask=0o022, secs=[sec])
 
 
+def create_over_existing(rng):
+    """a patch which creates a file that is already there (with other content): the hunk fails, exit 1"""
+    sec = scen.section(rng, "notes.txt", kind="add", fmt=rng.choice(["unified", "git"]))
+    s = scen.base_scenario(rng, [sec], opts={"f": 1})
+    s["tree"]["notes.txt"] = ("R", 0o644, b"already here\nwith content\n")
+    return s
+
+
 def run_c10(run_, rng, tier, exe):
     q = tier == "quick"
-    scns = fault_scenarios(rng, 18 if q else 120) + [big_scenario(rng)]
+    scns = fault_scenarios(rng, 16 if q else 120) + [big_scenario(rng), create_over_existing(rng), create_over_existing(rng)]
     base = run_many(exe, scns, strace=",".join(FAULT_CALLS), timeout=30)
     bad, mism = [], []
     jobs = []
@@ -194,8 +202,30 @@ def run_c09(run_, rng, tier, exe):
     res, b0, m0 = l2_family(run_, exe, scns, lambda s, r: (state_ok_after_abort(s, r["tree"]) if r["exit"] == 2 else None),
                             cls=lambda s, r: "syntax error -> exit %d" % r["exit"], label="C09a")
     bad += b0; mism += m0
+    # (a') with --backup, also after a complete run: several sections hitting the same file
+    sf = [scen.same_file_scenario(rng, opts={"b": 1}, git=rng.random() < 0.3) for _ in range(60 if q else 800)]
+    def judge_sf(s, r):
+        t = tree_no_meta(r["tree"])
+        for p in ("f", "g"):
+            if p in s["tree"]:
+                orig = s["tree"][p][2]
+                if not ((t.get(p) and t[p][2] == orig) or (t.get(p + ".orig") and t[p + ".orig"][2] == orig)):
+                    return "with -b, after the run the original content of %s is neither at %s nor at %s.orig (%s)" % (p, p, p, s["order"])
+        return None
+    _, b1, m1 = l2_family(run_, exe, sf, judge_sf, cls=lambda s, r: "same file " + s["order"], label="C09a'")
+    bad += b1; mism += m1
     # (b) SIGKILL before every system call that touches the scenario
-    ks = fault_scenarios(rng, 8 if q else 60)
+    ks = fault_scenarios(rng, 6 if q else 50)
+    for _ in range(4 if q else 30):
+        # renames of files larger than a stdio buffer, alone in their directory
+        a = [("line %03d %s" % (i, "y" * 30), "L") for i in range(rng.choice([3, 150]))]
+        ops = [(" ", l) for l in a]; ops[1] = ("-", a[1]); ops.insert(2, ("+", ("changed", "L")))
+        hs = gen.hunks_from_ops(ops, 3)
+        text = emit.emit_git("src/old", "src/new" if rng.random() < 0.5 else "dst/new", hs, kind="rename")
+        np_ = text.split(b" b/")[1].split(b"\n")[0].decode()
+        sec = dict(path="src/old", newpath=np_, a=a, b=[l for o, l in ops if o != "-"], kind="rename", fmt="git", hs=hs, ops=ops)
+        ks.append(dict(tree={"src": ("D", 0o755, b""), "src/old": ("R", 0o644, emit.file_bytes(a)), "p.diff": ("R", 0o644, text)},
+                       opts={"p": 1, "i": "p.diff"}, umask=0o022, secs=[sec]))
     ks = [s for s in ks if not s["opts"].get("o")]
     for s in ks:
         if rng.random() < 0.5:
